@@ -100,8 +100,11 @@ pub fn handle_xrange(storage: &Arc<StorageEngine>, db: usize, parts: &[RespFrame
         _ => return Ok(RespFrame::error("ERR invalid start ID format")),
     };
     
+    // ("-" and "+" are accepted in either position)
     let start = if start_str == "-" {
         StreamId::min()
+    } else if start_str == "+" {
+        StreamId::max()
     } else {
         match StreamId::from_string(&start_str) {
             Some(id) => id,
@@ -117,6 +120,8 @@ pub fn handle_xrange(storage: &Arc<StorageEngine>, db: usize, parts: &[RespFrame
     
     let end = if end_str == "+" {
         StreamId::max()
+    } else if end_str == "-" {
+        StreamId::min()
     } else {
         match StreamId::from_string(&end_str) {
             Some(id) => id,
@@ -195,6 +200,8 @@ pub fn handle_xrevrange(storage: &Arc<StorageEngine>, db: usize, parts: &[RespFr
     
     let end = if end_str == "+" {
         StreamId::max()
+    } else if end_str == "-" {
+        StreamId::min()
     } else {
         match StreamId::from_string(&end_str) {
             Some(id) => id,
@@ -208,8 +215,11 @@ pub fn handle_xrevrange(storage: &Arc<StorageEngine>, db: usize, parts: &[RespFr
         _ => return Ok(RespFrame::error("ERR invalid start ID format")),
     };
     
+    // ("-" and "+" are accepted in either position)
     let start = if start_str == "-" {
         StreamId::min()
+    } else if start_str == "+" {
+        StreamId::max()
     } else {
         match StreamId::from_string(&start_str) {
             Some(id) => id,
